@@ -30,8 +30,9 @@ func TestMain(m *testing.M) { vfx.Main(m) }
 type Send struct {
 	Kind    string // besteffort | reliable | gossip | meta
 	Len     int
-	Pattern int // 0 incompressible, 1 zeros, 2 repeating text, 3 magic first byte
-	First   int `json:",omitempty"`
+	Pattern int    // 0 incompressible, 1 zeros, 2 repeating text, 3 magic first byte
+	First   int    `json:",omitempty"`
+	Raw     []byte `json:",omitempty"` // explicit payload (native fuzzing)
 }
 
 type Plan struct {
@@ -98,6 +99,9 @@ func genPlan(t *rapid.T) Plan {
 }
 
 func payload(seed uint64, idx int, s Send) []byte {
+	if s.Raw != nil {
+		return append([]byte(nil), s.Raw...)
+	}
 	b := make([]byte, s.Len)
 	switch s.Pattern {
 	case 0, 3:
@@ -443,4 +447,31 @@ func contains(s []string, x string) bool {
 func TestRoundTrip(t *testing.T) {
 	theT = t
 	vfx.Check(t, genPlan, runPlan)
+}
+
+// FuzzRoundTrip: native coverage-guided fuzzing of the same round trip with
+// (payload, configuration bits) as the input (thorough tier).
+func FuzzRoundTrip(f *testing.F) {
+	f.Add([]byte("hello"), uint16(0))
+	f.Add([]byte{244, 3, 'a', 'b', 'c'}, uint16(0x1ff))
+	f.Add(make([]byte, 16), uint16(0x0a5))
+	f.Add([]byte{}, uint16(3))
+	f.Fuzz(func(t *testing.T, data []byte, cfg uint16) {
+		theT = t
+		if len(data) > 60000 {
+			return
+		}
+		keyLens := []int{0, 16, 24, 32}
+		pl := Plan{Seed: 1, KeyLen: keyLens[cfg&3], NoCompress: cfg&4 != 0, Label: int(cfg>>3) % 3, NewTimeA: cfg&32 != 0, NewTimeB: cfg&64 != 0,
+			NameLen: 5, StateA: -1, StateB: -1, UDPBuf: 65000}
+		pl.PVa, pl.PVb = uint8(2+(cfg>>7)%4), uint8(2+(cfg>>9)%4)
+		if pl.KeyLen > 0 && cfg&(1<<11) != 0 {
+			pl.PVa = 1
+		}
+		d := append([]byte{}, data...)
+		pl.Sends = []Send{{Kind: "besteffort", Len: len(d), Raw: d}, {Kind: "reliable", Len: len(d), Raw: d}, {Kind: "gossip", Len: len(d), Raw: d}}
+		if r := runPlan(pl); r.Err != nil {
+			t.Fatal(r.Err)
+		}
+	})
 }
